@@ -11,7 +11,7 @@ CLAIMED = {
     "C06": ("proof", "closed forms of the version-query wrapper (generic in the wrapped handler) and of each reaction; a listen step never parks anything (generic theorem)"),
     "C07": ("proof", "send and the wake step in closed form for every buffer content: parked until the wake, released once, only that node, last parked value; over whole histories a parked command stays parked through every operation that is not a wake signal of its node or a send for its key, and is written at the next fault-free wake"),
     "C08": ("proof", "release loop and wake step in closed form for every fault stream: failure reported, delivered prefix removed, the rest stays (at gateway level: every parked command outside the delivered prefix is still parked unchanged after the wake), nothing twice"),
-    "C09": ("proof", "PARTIAL: for every schedule of the flush/send race (small-step system whose scheduler may place sends at every step boundary) no update is lost, every write was sent, nothing is written twice; assumed: asyncio atomicity between suspension points, write is the only suspension point in the flush"),
+    "C09": ("proof", "PARTIAL: for every schedule of the flush/send race (small-step system whose scheduler may place sends at every step boundary) no update is lost, every write was sent, nothing is written twice, and the values written for one key leave in the order in which they were sent (FlushOrder.v); assumed: asyncio atomicity between suspension points, write is the only suspension point in the flush"),
     "C10": ("proof", "closed forms of the missing-node/child wrapper, the request logic and the marker clearing; for every listen step: no request or exactly one, only for a message of that node, only when none is outstanding, recorded iff the write succeeded; over whole histories no second request while one is outstanding; table facts on which handlers carry the wrapper"),
     "C11": ("proof", "allocation step theorem for every registry and fault stream; registered ids only grow over all histories; never handed out twice over whole histories (an id answered once is registered in every later state and differs from every id answered later)"),
     "C12": ("proof", "trichotomy proved for every case but one; the remaining case (internal command, buffering allowed) proved refuted = known finding; a held command is delivered end to end (stays held over any history without a wake of its node or a replacing send, written at the next fault-free wake)"),
